@@ -1,0 +1,69 @@
+//! Verification hooks. Compiled only with the `verif-hooks` cargo feature.
+//!
+//! `sched_point` lets an external deterministic scheduler pick the next task
+//! between two accesses to shared state; `crash_point` lets an external crash
+//! enumerator observe the directory between the I/O steps of a save routine.
+//! Both are no-ops unless a callback was installed for the calling thread (or,
+//! as a fallback, process-wide).
+
+use std::cell::RefCell;
+use std::path::Path;
+use std::sync::{Arc, RwLock};
+
+/// Callback type for [`sched_point`].
+pub type SchedFn = Arc<dyn Fn(&'static str) + Send + Sync>;
+/// Callback type for [`crash_point`].
+pub type CrashFn = Arc<dyn Fn(&'static str, Option<&Path>) + Send + Sync>;
+
+thread_local! {
+    static SCHED: RefCell<Option<SchedFn>> = const { RefCell::new(None) };
+    static CRASH: RefCell<Option<CrashFn>> = const { RefCell::new(None) };
+}
+
+static GLOBAL_SCHED: RwLock<Option<SchedFn>> = RwLock::new(None);
+static GLOBAL_CRASH: RwLock<Option<CrashFn>> = RwLock::new(None);
+
+/// Install (or clear) the scheduling callback of the calling thread.
+pub fn set_sched(f: Option<SchedFn>) {
+    SCHED.with(|s| *s.borrow_mut() = f);
+}
+
+/// Install (or clear) the crash callback of the calling thread.
+pub fn set_crash(f: Option<CrashFn>) {
+    CRASH.with(|s| *s.borrow_mut() = f);
+}
+
+/// Install (or clear) the process-wide fallback scheduling callback.
+pub fn set_global_sched(f: Option<SchedFn>) {
+    if let Ok(mut g) = GLOBAL_SCHED.write() {
+        *g = f;
+    }
+}
+
+/// Install (or clear) the process-wide fallback crash callback.
+pub fn set_global_crash(f: Option<CrashFn>) {
+    if let Ok(mut g) = GLOBAL_CRASH.write() {
+        *g = f;
+    }
+}
+
+/// A point between two accesses to shared state.
+pub fn sched_point(site: &'static str) {
+    let f = SCHED
+        .with(|s| s.borrow().clone())
+        .or_else(|| GLOBAL_SCHED.read().ok().and_then(|g| g.clone()));
+    if let Some(f) = f {
+        f(site);
+    }
+}
+
+/// A point between two I/O steps of a save routine. `in_flight` names the
+/// file whose content has been written but not yet synced, if any.
+pub fn crash_point(site: &'static str, in_flight: Option<&Path>) {
+    let f = CRASH
+        .with(|s| s.borrow().clone())
+        .or_else(|| GLOBAL_CRASH.read().ok().and_then(|g| g.clone()));
+    if let Some(f) = f {
+        f(site, in_flight);
+    }
+}
